@@ -584,7 +584,7 @@ def random_op(rng, pool, snap, focus=None):
     if name == "extend":
         k = rng.choice([0, 1, 1, 2, 2, 3])
         xs = [item(c, ln + j) for j in range(k)]
-        if len(xs) >= 2 and rng.random() < 0.15:
+        if len(xs) >= 2 and rng.random() < 0.05:
             xs[-1] = xs[0]
         return ("extend", c, xs)
     if name == "detach":
@@ -764,7 +764,8 @@ def run(ctx):
              "ie_set": ("idx",), "f_extend_dup": False, "f_remove_unlink": False, "f_setter_atomic": False,
              "f_cycle_check": False}
         P["ie_pop"] = P["ie_del"] = P["ie_insert"]
-        text = {"ie_insert": "?", "ie_pop": "?", "ie_del": "?", "ie_set": "?"}
+        found = "index if index >= 0 else len(self) - index"
+        text = {"ie_insert": found, "ie_pop": found, "ie_del": found, "ie_set": "index"}
     else:
         text = T["text"]
     ieval = tr.iexpr_eval
@@ -777,7 +778,7 @@ def run(ctx):
         rec["name"] = name
         recs.append(rec)
     rng = ctx.rng("hist")
-    n_hist = ctx.pick(1000, 8000)
+    n_hist = ctx.pick(450, 12000)
     n_random = ctx.pick(12, 40)
     for h in range(n_hist):
         n_rand = rng.randint(max(1, n_random // 3), n_random)
@@ -843,31 +844,35 @@ def run(ctx):
 
     bad = set(failing)
     reported = 0
+    model_ok = bool(T and ok)
+    seen_keys = set()
     # (1) concrete property failures on the real tree
     for idx, rec in enumerate(recs):
         if not rec["fail"]:
             continue
         f = rec["fail"]
-        if idx in bad or not (T and ok):
-            # the faithful model does not predict this failure (or there is no model): always a violation
+        key = finding_key(f["reason"], text)
+        if model_ok and idx in bad:
+            # the faithful model does not predict this failure: always a violation
             if reported < 3:
                 ctx.violation(replay_of(rec, {"note": "property fails on the real tree and the model instantiated "
-                                                      "with the translated parameters does not reproduce the step"
-                                              if idx in bad else "property fails on the real tree; translator/proofs "
-                                              "did not build, see 'broken'",
-                                              "broken": (rep.get("errors") if T else terr)}))
+                                                      "with the translated parameters does not reproduce the step"}))
                 reported += 1
             continue
-        key = finding_key(f["reason"], text)
         if f["reason"] == 0:
             if reported < 3:
                 ctx.violation(replay_of(rec, {"note": "property fails on the real tree although the operation is inside "
-                                                      "the proved-safe fragment", "key": key}))
+                                                      "the proved-safe fragment" + ("" if model_ok else
+                                                      " (classified with the as-found parameters: translator/proofs did not build)"),
+                                              "broken": None if model_ok else (rep.get("errors") if T else terr)}))
                 reported += 1
             continue
+        # a failure of one of the classified defect classes (model-predicted when the model is available)
         ctx.hist("finding_hits", key)
-        ctx.finding(key, "%s (history %s step %d)" % (f["invariant"] or "raised but changed the tree", rec["name"], f["step"]),
-                    replay_of(rec, {}))
+        if key not in seen_keys:
+            seen_keys.add(key)
+            ctx.finding(key, "%s (history %s step %d)" % (f["invariant"] or "raised but changed the tree", rec["name"], f["step"]),
+                        replay_of(rec, {}))
     # (2) proof / translation / correspondence broken without a concrete failing input
     if not any(not nf for _, nf in ctx.violations):
         if not T:
@@ -932,6 +937,34 @@ def extra_checks(ctx):
         ctx.count(("slice", name), False)
     after = [id(c) for c in s.children]
     ctx.notes["slice_operations"] = outcomes
+    # in-place list operators are not overridden by ChildrenList (not modelled; replayed directly)
+    import operator
+    s2, r2 = N.Schedule(), N.Return()
+    alias = s2.children
+    try:
+        operator.iadd(alias, [r2])
+    except Exception:
+        pass
+    ctx.count(("inplace", "+="), False)
+    if any(c.parent is not s2 for c in list.__iter__(s2.children)):
+        ctx.finding("ChildrenList.__iadd__/not-overridden",
+                    "children list `+=` bypasses validation and parent links",
+                    {"property": "C14", "replay": "s = Schedule(); l = s.children; l += [Return()]  -> the Return is "
+                     "listed by s but its parent is None"})
+    s3, r3 = N.Schedule(), N.Return()
+    s3.addchild(r3)
+    alias = s3.children
+    try:
+        operator.imul(alias, 2)
+    except Exception:
+        pass
+    ctx.count(("inplace", "*="), False)
+    ids3 = [id(c) for c in list.__iter__(s3.children)]
+    if len(set(ids3)) != len(ids3):
+        ctx.finding("ChildrenList.__imul__/not-overridden",
+                    "children list `*=` lists every child several times",
+                    {"property": "C14", "replay": "s = Schedule(); s.addchild(Return()); l = s.children; l *= 2  -> the "
+                     "Return is listed twice"})
     if before != after or any(c.parent is not s for c in s.children):
         ok_tree = all(c.parent is s for c in s.children) and len(set(after)) == len(after) and \
             all(isinstance(c, N.Statement) for c in s.children)
